@@ -8,7 +8,7 @@
    The model is tied to the code by the correspondence with the implementation on every run. *)
 From Walleye Require Import Model.Successor Spec.Abs Proofs.CheckProofs Proofs.MoveGenProofs Proofs.GenerateAbs Proofs.LegalMoves Proofs.NoDupMoves
      Proofs.LegalPosition Proofs.Preservation Proofs.InitialPosition Proofs.FenLegal.
-From Walleye Require Import Model.Fen Spec.FenPrint.
+From Walleye Require Import Model.Fen Spec.FenPrint Gen.ZobristTable.
 Open Scope Z_scope.
 
 (* soundness: no illegal move appears *)
@@ -115,6 +115,34 @@ Theorem C01_castle_conditions : forall s,
   is_empty (get (board s) (BOARD_END - 1, BOARD_END - 3)) = true /\
   is_empty (get (board s) (BOARD_END - 1, BOARD_END - 2)) = true.
 Proof. exact can_castle_wks_safe. Qed.
+
+(* the rules-level specification itself, against the published move-count (perft) numbers of the standard test
+   positions: an independent check that Spec.legal_moves / Spec.apply are the rules of chess *)
+Fixpoint spec_perft (n : nat) (p : position) : N :=
+  match n with O => 1%N | S n' => fold_left (fun acc m => (acc + spec_perft n' (apply p m))%N) (legal_moves p) 0%N end.
+Definition pos_of_fen (s : list N) : position :=
+  match from_fen zt_concrete s with Ok st => abs st | _ => abs initial_state end.
+Definition fen_kiwipete : list N := [114; 51; 107; 50; 114; 47; 112; 49; 112; 112; 113; 112; 98; 49; 47; 98; 110; 50; 112; 110; 112; 49; 47; 51; 80; 78; 51; 47; 49; 112; 50; 80; 51; 47; 50; 78; 50; 81; 49; 112; 47; 80; 80; 80; 66; 66; 80; 80; 80; 47; 82; 51; 75; 50; 82; 32; 119; 32; 75; 81; 107; 113; 32; 45; 32; 48; 32; 49]%N.   (* r3k2r/p1ppqpb1/bn2pnp1/3PN3/1p2P3/2N2Q1p/PPPBBPPP/R3K2R w KQkq - 0 1 *)
+Definition fen_pos3 : list N := [56; 47; 50; 112; 53; 47; 51; 112; 52; 47; 75; 80; 53; 114; 47; 49; 82; 51; 112; 49; 107; 47; 56; 47; 52; 80; 49; 80; 49; 47; 56; 32; 119; 32; 45; 32; 45; 32; 48; 32; 49]%N.   (* 8/2p5/3p4/KP5r/1R3p1k/8/4P1P1/8 w - - 0 1 *)
+Definition fen_pos4 : list N := [114; 51; 107; 50; 114; 47; 80; 112; 112; 112; 49; 112; 112; 112; 47; 49; 98; 51; 110; 98; 78; 47; 110; 80; 54; 47; 66; 66; 80; 49; 80; 51; 47; 113; 52; 78; 50; 47; 80; 112; 49; 80; 50; 80; 80; 47; 82; 50; 81; 49; 82; 75; 49; 32; 119; 32; 107; 113; 32; 45; 32; 48; 32; 49]%N.   (* r3k2r/Pppp1ppp/1b3nbN/nP6/BBP1P3/q4N2/Pp1P2PP/R2Q1RK1 w kq - 0 1 *)
+Definition fen_pos5 : list N := [114; 110; 98; 113; 49; 107; 49; 114; 47; 112; 112; 49; 80; 98; 112; 112; 112; 47; 50; 112; 53; 47; 56; 47; 50; 66; 53; 47; 56; 47; 80; 80; 80; 49; 78; 110; 80; 80; 47; 82; 78; 66; 81; 75; 50; 82; 32; 119; 32; 75; 81; 32; 45; 32; 49; 32; 56]%N.   (* rnbq1k1r/pp1Pbppp/2p5/8/2B5/8/PPP1NnPP/RNBQK2R w KQ - 1 8 *)
+Definition fen_pos6 : list N := [114; 52; 114; 107; 49; 47; 49; 112; 112; 49; 113; 112; 112; 112; 47; 112; 49; 110; 112; 49; 110; 50; 47; 50; 98; 49; 112; 49; 66; 49; 47; 50; 66; 49; 80; 49; 98; 49; 47; 80; 49; 78; 80; 49; 78; 50; 47; 49; 80; 80; 49; 81; 80; 80; 80; 47; 82; 52; 82; 75; 49; 32; 119; 32; 45; 32; 45; 32; 48; 32; 49; 48]%N.   (* r4rk1/1pp1qppp/p1np1n2/2b1p1B1/2B1P1b1/P1NP1N2/1PP1QPPP/R4RK1 w - - 0 10 *)
+Example C01_specification_counts_the_published_perft_numbers :
+  spec_perft 1 (abs initial_state) = 20%N /\
+  spec_perft 2 (abs initial_state) = 400%N /\
+  spec_perft 3 (abs initial_state) = 8902%N /\
+  spec_perft 1 (pos_of_fen fen_kiwipete) = 48%N /\
+  spec_perft 2 (pos_of_fen fen_kiwipete) = 2039%N /\
+  spec_perft 1 (pos_of_fen fen_pos3) = 14%N /\
+  spec_perft 2 (pos_of_fen fen_pos3) = 191%N /\
+  spec_perft 3 (pos_of_fen fen_pos3) = 2812%N /\
+  spec_perft 1 (pos_of_fen fen_pos4) = 6%N /\
+  spec_perft 2 (pos_of_fen fen_pos4) = 264%N /\
+  spec_perft 1 (pos_of_fen fen_pos5) = 44%N /\
+  spec_perft 2 (pos_of_fen fen_pos5) = 1486%N /\
+  spec_perft 1 (pos_of_fen fen_pos6) = 46%N /\
+  spec_perft 2 (pos_of_fen fen_pos6) = 2079%N.
+Proof. vm_compute. repeat split; reflexivity. Qed.
 
 Print Assumptions C01_generated_moves_are_legal.
 Print Assumptions C01_legal_moves_are_generated.
